@@ -29,7 +29,7 @@ ASSUMPTIONS = [
 ]
 FLOORS = {"repeat_kind": 0.2}
 
-OPS = ["sb20_default", "sb20_explicit", "sb21_default", "sb21_explicit", "sb21_export", "adv_params", "sb21_cfg_shared", "sb21_cfg_fresh",
+OPS = ["sb20_default", "sb20_explicit", "sb21_default", "sb21_explicit", "sb21_export", "adv_params", "sb21_cfg_shared", "sb21_cfg_fresh", "sb21_full", "sb21_full_shared",
        "mbi_class", "mbi_config", "mbi_config_shared", "mbi_config_shared", "mbi_full", "mbi_full_shared", "mbi_reload", "mbi_reload_given", "otfad_blob", "otfad_export", "iee_xts", "iee_ctr", "bee_prdb", "bee_kib", "bee_header", "hab_nonce",
        "hab_dek_128", "hab_dek_256"]
 
@@ -79,6 +79,34 @@ def _do(op: str, idx: int, env: dict | None = None) -> dict[str, bytes]:
         cfg = env.setdefault("sb21_options", {"flags": 8, "buildNumber": 1}) if op == "sb21_cfg_shared" else {"flags": 8, "buildNumber": 1}
         a = BootImageV21.get_advanced_params(cfg)
         return {"sb2_dek": a.dek, "sb2_mac": a.mac, "sb2_nonce": a.nonce, "sb2_ctr_pair": a.dek + a.nonce}
+    if op in ("sb21_full", "sb21_full_shared"):
+        # a whole SB2.1 file through BootImageV21.load_from_config (certificate, key and KEK files, no dek/mac/nonce options), as
+        # `nxpimage sb21 export` builds it; "shared": one configuration dictionary (parsed once) builds every file of the history
+        import copy
+
+        from vf.gen import keys as K
+        from vf.ref import sb2_rom
+
+        wd = os.path.join(env["workdir"], "sb21_full")
+        if not os.path.isdir(wd):
+            os.makedirs(wd)
+            key = K.rsa_key(2048, 0)
+            with open(os.path.join(wd, "root0.der"), "wb") as f:
+                f.write(K.cert_der(K.make_cert(key, key, subject_cn="c17 root", ca=False)))
+            with open(os.path.join(wd, "sign_key.pem"), "wb") as f:
+                f.write(K.private_pem(key))
+            with open(os.path.join(wd, "kek.txt"), "w") as f:
+                f.write((b"\x17" * 32).hex())
+        base = {"family": "lpc55s6x", "options": {"secureBinaryVersion": "2.1", "flags": 8, "buildNumber": 1},
+                "sections": [{"section_id": 0, "commands": [{"reset": {}}]}],
+                "rootCertificate0File": "root0.der", "mainRootCertId": 0, "mainCertPrivateKeyFile": "sign_key.pem"}
+        cfg = env.setdefault("sb21_full_cfg", base) if op == "sb21_full_shared" else copy.deepcopy(base)
+        img = BootImageV21.load_from_config(cfg, key_file_path=os.path.join(wd, "kek.txt"), search_paths=[wd])
+        data = img.export()
+        m = sb2_rom.load(data, b"\x17" * 32)
+        if (m["dek"], m["mac"], m["header"]["nonce"]) != (img.dek, img.mac, img.header.nonce):
+            raise AssertionError("exported SB2.1 does not carry the object's secrets")
+        return {"sb2_dek": img.dek, "sb2_mac": img.mac, "sb2_nonce": img.header.nonce, "sb2_ctr_pair": img.dek + img.header.nonce}
     if op in ("hab_dek_128", "hab_dek_256"):
         import types
 
